@@ -7,6 +7,7 @@ THEOREMS = [
     "Lou.C04.fwd_valid_out_default", "Lou.C04.fwd_valid_out_dotsIO",
     "Lou.C04.fwd_ret0_iff", "Lou.C04.fwd_ret0_logged", "Lou.C04.inlen_negative_witness",
     "Lou.C04.idEngine_ok", "Lou.C04.back_lengths", "Lou.C04.back_ret0_iff",
+            "Lou.ModelEngine.model_fwd_lengths", "Lou.ModelEngine.model_back_lengths",
 ]
 
 CLAIM = dict(
